@@ -5,6 +5,7 @@ import (
 	"fmt"
 	"runtime"
 	"strings"
+	"time"
 
 	datatransfer "github.com/filecoin-project/go-data-transfer/v2"
 	"github.com/filecoin-project/go-data-transfer/v2/message"
@@ -144,7 +145,10 @@ func c20RespBody(x *mc.Cell, ops []int, name, names string) mc.Body {
 				x.Cap(name + ": step cap")
 			}
 			if len(stuck) > 0 {
-				stuck, _ = s.Run(c, 6000, 0, 0)
+				stuck, _ = s.Run(c, 9000, 500*time.Millisecond, 60)
+				if len(stuck) > 0 {
+					stuck, _ = s.Run(c, 12000, time.Hour, 24)
+				}
 			}
 			parked := mc.Parked()
 			if len(stuck) > 0 {
@@ -155,6 +159,10 @@ func c20RespBody(x *mc.Cell, ops []int, name, names string) mc.Body {
 				}
 				sites := strings.Join(mc.BlockedSites(), "+")
 				n := mc.Unblock()
+				if strings.Contains(names, "close") || strings.Contains(names, "peer-cancels") || strings.Contains(names, "response-completed") {
+					// one of the operations ends the channel: its cleanup is part of the cycle, the channel never settles (C09)
+					x.Violate("C09", fmt.Sprintf("responder-interleaving;cleanup-never-finishes;blocked-in=%s;ops=%s", sites, names), fmt.Sprintf("the channel's cleanup is blocked for ever, the channel never reaches its terminal status; operations %v never returned; schedule: %v\nblocked goroutines:\n%s", stuck, s.Trace, stacks), rep)
+				}
 				x.Violate("C20", fmt.Sprintf("responder-interleaving;call-did-not-return;blocked-in=%s;ops=%s", sites, names), fmt.Sprintf("operations %v never returned (%d goroutines parked in library locks); schedule: %v\nblocked goroutines:\n%s", stuck, n, s.Trace, stacks), rep)
 				cancelOps()
 				s.Close()
@@ -230,6 +238,11 @@ func init() {
 			pair := respOps[a].name + "+" + respOps[b].name
 			mc.Register("C20", "responder-pairs/"+pair, "quick", func(x *mc.Cell) { c20RespInterleave(x, []int{a, b}, 1, 3000) })
 			mc.Register("C20", "responder-pairs/"+pair, "thorough", func(x *mc.Cell) { c20RespInterleave(x, []int{a, b}, 2, 20000) })
+			if strings.Contains(pair, "close") || strings.Contains(pair, "peer-cancels") || strings.Contains(pair, "response-completed") {
+				// pairs in which the channel (or the second channel) is ended also decide C09's "settles without further input"
+				mc.Register("C09", "responder-pairs/"+pair, "quick", func(x *mc.Cell) { c20RespInterleave(x, []int{a, b}, 1, 3000) })
+				mc.Register("C09", "responder-pairs/"+pair, "thorough", func(x *mc.Cell) { c20RespInterleave(x, []int{a, b}, 2, 20000) })
+			}
 		}
 	}
 }
